@@ -39,6 +39,7 @@ type ReturnSite struct {
 	Err          int           // 0 = error result is nil, 1 = non-nil, 2 = unknown, -1 = function has no error result
 	Results      [][]PVal      // provenance per result (pointer/slice results only; nil otherwise)
 	WrittenRoots map[Root]bool // roots that may have been written on some path to this site
+	RecvDefined  bool          // the whole of *Param(0) has definitely been written on every path to this site
 	Forwarded    *ssa.Function // the site forwards this callee's result tuple
 }
 
@@ -51,6 +52,8 @@ type Summary struct {
 	Pairs        map[Pair]struct{} // write-then-read pairs over different roots (plus Elem self pairs)
 	Returns      []ReturnSite
 	External     bool
+	// RetContents[k]: pointers held by fresh objects returned as result k
+	RetContents map[int][]PVal
 }
 
 type InitViolation struct {
@@ -83,7 +86,9 @@ type Analysis struct {
 	Info     map[*ssa.Function]*FuncInfo
 	Ext      map[string]*Summary
 	Problems []string
-	Order    []*ssa.Function
+	// ProblemFn[i] is the function problem i arose in (nil = whole program)
+	ProblemFn []*ssa.Function
+	Order     []*ssa.Function
 }
 
 func (a *Analysis) problem(f *ssa.Function, in ssa.Instruction, format string, args ...interface{}) {
@@ -94,16 +99,19 @@ func (a *Analysis) problem(f *ssa.Function, in ssa.Instruction, format string, a
 			pos = fmt.Sprintf("block %d", in.Block().Index)
 		}
 	}
-	a.addProblem(fmt.Sprintf("UNDECIDED %s %s: %s", pos, load.ShortName(f), fmt.Sprintf(format, args...)))
+	a.addProblemFn(f, fmt.Sprintf("UNDECIDED %s %s: %s", pos, load.ShortName(f), fmt.Sprintf(format, args...)))
 }
 
-func (a *Analysis) addProblem(msg string) {
+func (a *Analysis) addProblem(msg string) { a.addProblemFn(nil, msg) }
+
+func (a *Analysis) addProblemFn(f *ssa.Function, msg string) {
 	for _, p := range a.Problems {
 		if p == msg {
 			return
 		}
 	}
 	a.Problems = append(a.Problems, msg)
+	a.ProblemFn = append(a.ProblemFn, f)
 }
 
 func isPtrLike(t types.Type) bool {
@@ -139,7 +147,7 @@ func Run(p *load.Program) *Analysis {
 	a := &Analysis{P: p, Info: map[*ssa.Function]*FuncInfo{}, Ext: map[string]*Summary{}}
 	order, err := p.TopoOrder()
 	if err != nil {
-		a.Problems = append(a.Problems, "STRUCTURE "+err.Error())
+		a.addProblem("STRUCTURE " + err.Error())
 	}
 	a.Order = order
 	for _, f := range order {
@@ -251,6 +259,9 @@ func (fi *FuncInfo) freshName(r Root) string {
 	case *ssa.MakeSlice:
 		return "local:make"
 	case *ssa.Call:
+		if b, ok := s.Common().Value.(*ssa.Builtin); ok {
+			return "fresh:" + b.Name() + "()"
+		}
 		callee := s.Common().StaticCallee()
 		return "fresh:" + load.ShortName(callee) + "()"
 	}
@@ -467,7 +478,7 @@ func (fi *FuncInfo) transfer(in ssa.Instruction, set func(ssa.Value, []PVal), ch
 	case *ssa.Call:
 		fi.callPts(x, set, changed)
 	case *ssa.MakeInterface, *ssa.BinOp, *ssa.Index, *ssa.Field, *ssa.If, *ssa.Jump, *ssa.Return, *ssa.Panic,
-		*ssa.MakeClosure, *ssa.DebugRef:
+		*ssa.MakeClosure, *ssa.DebugRef, *ssa.Defer, *ssa.RunDefers:
 	default:
 		a.problem(f, in, "no points-to transfer function for %T", in)
 	}
@@ -589,6 +600,42 @@ func (fi *FuncInfo) callPts(c *ssa.Call, set func(ssa.Value, []PVal), changed *b
 	if b, ok := cc.Value.(*ssa.Builtin); ok {
 		switch b.Name() {
 		case "len", "cap", "copy":
+		case "append":
+			// the result shares dst's backing array (len < cap) or is a new array
+			fresh := Root{Kind: KFresh, Site: c}
+			out := []PVal{{Loc: Loc{Root: fresh}}}
+			for _, pv := range fi.operand(cc.Args[0]) {
+				if pv.Loc.Root.Kind != KNil {
+					out = append(out, pv)
+				}
+			}
+			set(c, out)
+			if sl, ok := c.Type().Underlying().(*types.Slice); ok && isPtrLike(sl.Elem()) {
+				var elems []PVal
+				for _, a := range cc.Args {
+					elems = append(elems, fi.elemsOf(c, a)...)
+				}
+				for _, pv := range out {
+					switch pv.Loc.Root.Kind {
+					case KFresh:
+						for _, e := range elems {
+							var ch bool
+							fi.Contents[pv.Loc.Root], ch = addPV(fi.Contents[pv.Loc.Root], e)
+							if ch {
+								*changed = true
+							}
+						}
+					case KParam:
+						for _, e := range elems {
+							if e.Loc.Root != (Root{Kind: KElem, Index: pv.Loc.Root.Index}) {
+								fi.A.problem(fi.Fn, c, "append stores pointers from elsewhere into the backing array of parameter %s", fi.RootName(pv.Loc.Root))
+							}
+						}
+					default:
+						fi.A.problem(fi.Fn, c, "append of pointers into %s", fi.LocName(pv.Loc))
+					}
+				}
+			}
 		default:
 			fi.A.problem(fi.Fn, c, "builtin %s has no transfer function", b.Name())
 		}
@@ -620,6 +667,25 @@ func (fi *FuncInfo) callPts(c *ssa.Call, set func(ssa.Value, []PVal), changed *b
 			}
 		}
 	}
+	// pointers held by objects the callee returns fresh
+	for k, pvs := range sum.RetContents {
+		r := Root{Kind: KFresh, Site: c, Sub: k}
+		for _, pv := range pvs {
+			var ts []PVal
+			if pv.Loc.Root.Kind == KElem && pv.Loc.Root.Index < len(cc.Args) {
+				ts = fi.elemsOf(c, cc.Args[pv.Loc.Root.Index])
+			} else {
+				ts = fi.translatePV(c, k, pv)
+			}
+			for _, t := range ts {
+				var ch bool
+				fi.Contents[r], ch = addPV(fi.Contents[r], t)
+				if ch {
+					*changed = true
+				}
+			}
+		}
+	}
 	if res.Len() == 1 {
 		if isPtrLike(res.At(0).Type()) {
 			set(c, perResult[0])
@@ -640,6 +706,27 @@ func (fi *FuncInfo) callPts(c *ssa.Call, set func(ssa.Value, []PVal), changed *b
 		}
 	}
 	fi.Tup[c] = old
+}
+
+// elemsOf: the pointers a slice-of-pointers value may hold.
+func (fi *FuncInfo) elemsOf(at ssa.Instruction, v ssa.Value) []PVal {
+	var out []PVal
+	for _, pv := range fi.operand(v) {
+		switch pv.Loc.Root.Kind {
+		case KNil:
+		case KParam:
+			if pv.Loc.Path == "" {
+				out = append(out, PVal{Loc: Loc{Root: Root{Kind: KElem, Index: pv.Loc.Root.Index}}})
+			} else {
+				fi.A.problem(fi.Fn, at, "pointer elements of %s", fi.LocName(pv.Loc))
+			}
+		case KFresh:
+			out = append(out, fi.Contents[pv.Loc.Root]...)
+		default:
+			fi.A.problem(fi.Fn, at, "pointer elements of %s", fi.LocName(pv.Loc))
+		}
+	}
+	return out
 }
 
 // ---- events ------------------------------------------------------------
@@ -724,6 +811,26 @@ func (fi *FuncInfo) callEvents(c *ssa.Call) []Event {
 	cc := c.Common()
 	var evs []Event
 	if b, ok := cc.Value.(*ssa.Builtin); ok {
+		if b.Name() == "append" {
+			for _, pv := range fi.operand(cc.Args[1]) {
+				if pv.Loc.Root.Kind == KNil {
+					continue
+				}
+				l := Loc{pv.Loc.Root, pv.Loc.Path.Append(Step{N: AnyIndex})}
+				evs = append(evs, Event{Op: OpReadInit, Loc: l, Instr: c}, Event{Op: OpRead, Loc: l, Instr: c})
+			}
+			for _, pv := range fi.operand(cc.Args[0]) {
+				if pv.Loc.Root.Kind == KNil {
+					continue
+				}
+				// elements are copied out on growth, and written in place (beyond len) otherwise
+				l := Loc{pv.Loc.Root, pv.Loc.Path.Append(Step{N: AnyIndex})}
+				evs = append(evs, Event{Op: OpReadInit, Loc: l, Instr: c}, Event{Op: OpRead, Loc: l, Instr: c}, Event{Op: OpWrite, Loc: l, Instr: c})
+			}
+			fr := Root{Kind: KFresh, Site: c}
+			evs = append(evs, Event{Op: OpKill, Loc: Loc{Root: fr}, Instr: c}, Event{Op: OpWrite, Loc: Loc{fr, EncodePath([]Step{{N: AnyIndex}})}, Instr: c})
+			return evs
+		}
 		if b.Name() == "copy" {
 			for _, pv := range fi.operand(cc.Args[1]) {
 				if pv.Loc.Root.Kind == KNil {
@@ -1072,11 +1179,24 @@ func (fi *FuncInfo) dataflow() {
 		for l := range st.may {
 			rs.WrittenRoots[l.Root] = true
 		}
+		if len(f.Params) > 0 && isPtrLike(f.Params[0].Type()) {
+			rs.RecvDefined = fi.covered(st.must, Loc{Root: Root{Kind: KParam, Index: 0}})
+		}
 		res := f.Signature.Results()
 		rs.Results = make([][]PVal, len(ret.Results))
 		for k, rv := range ret.Results {
 			if isPtrLike(rv.Type()) {
 				rs.Results[k] = fi.operand(rv)
+				for _, pv := range rs.Results[k] {
+					if pv.Loc.Root.IsFresh() && len(fi.Contents[pv.Loc.Root]) > 0 {
+						if sum.RetContents == nil {
+							sum.RetContents = map[int][]PVal{}
+						}
+						for _, cpv := range fi.Contents[pv.Loc.Root] {
+							sum.RetContents[k], _ = addPV(sum.RetContents[k], cpv)
+						}
+					}
+				}
 				// a returned local object of a non-zero-valid type must be fully defined
 				for _, pv := range rs.Results[k] {
 					if pv.Loc.Root.IsFresh() {
@@ -1176,27 +1296,72 @@ func (a *Analysis) external(f *ssa.Function) *Summary {
 		a.Ext[name] = s
 		return s
 	}
-	switch name {
-	case "math/bits.Mul64", "math/bits.Add64", "math/bits.Sub64",
-		"crypto/subtle.ConstantTimeByteEq", "crypto/subtle.ConstantTimeSelect", "crypto/subtle.ConstantTimeEq",
-		"crypto/subtle.ConstantTimeLessOrEq", "errors.New":
-	case "(encoding/binary.littleEndian).Uint64":
+	readAll := func(params ...int) {
+		for _, p := range params {
+			s.MayRead.Add(idx(p, AnyIndex))
+			s.ReadsInitial.Add(idx(p, AnyIndex))
+		}
+	}
+	hasPtr := false
+	for _, p := range f.Params {
+		if isPtrLike(p.Type()) {
+			hasPtr = true
+		}
+	}
+	res := f.Signature.Results()
+	for k := 0; k < res.Len(); k++ {
+		if isPtrLike(res.At(k).Type()) {
+			hasPtr = true
+		}
+	}
+	pkg := ""
+	if f.Pkg != nil {
+		pkg = f.Pkg.Pkg.Path()
+	}
+	switch {
+	case name == "(encoding/binary.littleEndian).Uint64" || name == "(encoding/binary.bigEndian).Uint64":
 		for i := 0; i < 8; i++ {
 			s.MayRead.Add(idx(1, i))
 			s.ReadsInitial.Add(idx(1, i))
 		}
-	case "(encoding/binary.littleEndian).PutUint64":
+	case name == "(encoding/binary.littleEndian).Uint32" || name == "(encoding/binary.bigEndian).Uint32":
+		for i := 0; i < 4; i++ {
+			s.MayRead.Add(idx(1, i))
+			s.ReadsInitial.Add(idx(1, i))
+		}
+	case name == "(encoding/binary.littleEndian).PutUint64" || name == "(encoding/binary.bigEndian).PutUint64":
 		for i := 0; i < 8; i++ {
 			s.MayWrite.Add(idx(1, i))
 			s.MustWrite.Add(idx(1, i))
 		}
-	case "crypto/subtle.ConstantTimeCompare":
-		for p := 0; p < 2; p++ {
-			s.MayRead.Add(idx(p, AnyIndex))
-			s.ReadsInitial.Add(idx(p, AnyIndex))
+	case name == "(encoding/binary.littleEndian).PutUint32" || name == "(encoding/binary.bigEndian).PutUint32":
+		for i := 0; i < 4; i++ {
+			s.MayWrite.Add(idx(1, i))
+			s.MustWrite.Add(idx(1, i))
 		}
-	case "(*sync.Once).Do":
+	case name == "crypto/subtle.ConstantTimeCompare" || name == "bytes.Equal" || name == "bytes.Compare":
+		readAll(0, 1)
+	case name == "crypto/subtle.ConstantTimeCopy":
+		readAll(2)
+		s.MayWrite.Add(idx(1, AnyIndex))
+	case name == "crypto/subtle.XORBytes":
+		readAll(1, 2)
+		s.MayWrite.Add(idx(0, AnyIndex))
+	case name == "(*sync.Once).Do":
 		// handled at the call site through the literal
+	case pkg == "sync" && (strings.HasSuffix(name, ".Lock") || strings.HasSuffix(name, ".Unlock") || strings.HasSuffix(name, ".RLock") || strings.HasSuffix(name, ".RUnlock")):
+		// mutual exclusion: no effect on the locations we track; the lock word itself
+		s.MayRead.Add(Loc{Root{Kind: KParam, Index: 0}, ""})
+		s.MayWrite.Add(Loc{Root{Kind: KParam, Index: 0}, ""})
+	case pkg == "sync/atomic" && !strings.Contains(name, "Pointer"):
+		// atomic integer operations on their receiver / first argument
+		s.MayRead.Add(Loc{Root{Kind: KParam, Index: 0}, ""})
+		s.ReadsInitial.Add(Loc{Root{Kind: KParam, Index: 0}, ""})
+		if !strings.HasSuffix(name, ".Load") && !strings.HasPrefix(f.Name(), "Load") {
+			s.MayWrite.Add(Loc{Root{Kind: KParam, Index: 0}, ""})
+		}
+	case !hasPtr:
+		// a function of scalars only cannot touch our memory
 	default:
 		a.addProblem("UNDECIDED external callee without an effect summary: " + name)
 		s = nil
